@@ -33,6 +33,7 @@ META = {
                     'symx.concrete.round_q)'],
 }
 META['bounds'].append('6 call sequences of quantize: equal quantity in another unit (3 unit pairs), default mode switched between calls (3 mode pairs)')
+META['bounds'].append('6 pairs of units of equal scale (l/dm3, J/Nm, Ws/J, N/(J/m), ml/cm3); round(q, n) on DataVolume: 6 units x 6 concrete amounts x 6 n x 3 modes (enumeration)')
 
 
 # the fraction-flavoured path goes through symbolic numerator / denominator (non-linear link n == v*d): give
